@@ -27,7 +27,7 @@ CHECK = {
                    "blst/k256/dalek wrappers) on all operand/scalar/encoding classes of the property; the harness also "
                    "checks the property directly against an affine law over num-bigint. A coverage table (type family x "
                    "trait method -> model line / variant / oracle only / known finding / other property) is written to "
-                   "stats.json (extra.coverage_table, harness/c11/src/cover.rs). The correspondence is deliberately tight "
+                   "stats.json (extra.coverage_table, harness/c11/src/cover.rs). The checked raw-bytes readers of the derive-generated curve types (from_raw_bytes, read_raw) are compared with the model's on-curve predicates on valid, identity, off-curve and Z = 0 inputs. The correspondence is deliberately tight "
                    "for the pure-Rust types: a re-association that changes the raw (U,V,Z,T1,T2) / (X,Y,Z) representative "
                    "of a result (not its affine value) changes an impl line and fires; affine values are compared for the "
                    "wrapped libraries only.",
@@ -61,7 +61,8 @@ CHECK = {
                   "(affine law, decoder models) and checked by correspondence, not verified; hash_to_curve is only "
                   "checked for subgroup membership and determinism. Known findings: blst's endomorphism-based scalar "
                   "multiplication is wrong outside the prime-order subgroup (reachable through on-curve-only "
-                  "constructors); curve25519-dalek's decoder accepts non-canonical encodings; the checked raw-bytes "
-                  "reader (SerdeObject::read_raw) of the BN254 dev-curve types accepts off-curve points.",
+                  "constructors); curve25519-dalek's decoder accepts non-canonical encodings. Fixed during "
+                  "this work and kept as regression lines: SerdeObject::read_raw of the BN254 dev-curve types "
+                  "accepted off-curve points (569715f).",
     "timeout": {"quick": 900, "thorough": 3000, "search": 900},
 }
